@@ -2,6 +2,7 @@ SPECIFICATION TraceSpec
 CONSTANTS
   IsCase <- AnyCase
   KnownDefects = {}
+  MaxRoundsNoSoE = 50
   Log <- LogLast
 CONSTRAINT HighWater
 INVARIANTS TypeOK Inv_C17_Quorum_PaddingCounted Inv_ThresholdSane
